@@ -3,7 +3,7 @@
 
     python3 gen/C13_gen.py <part>[+<part>] --out <builddir> --seed N --tier quick|thorough
 
-(parts: cm64 cm32 cmld int8 num8 w1632 w64 cstr wstr scen cont het mix dur) writes <builddir>/C13_gen_<part>[_<part>].hpp: constexpr argument tables (bit patterns) and the list of
+(parts: cm64 cm32 cmld int8 num8 w1632 w64 cstr wstr scen cont het mix dur cal deg) writes <builddir>/C13_gen_<part>[_<part>].hpp: constexpr argument tables (bit patterns) and the list of
 (function, table) instantiations `C13_OBLIGATIONS(X)` that props/C13_cteval.cpp (compiled with -DC13_PART_<PART>)
 turns into  (a) constexpr result tables computed by the compiler, each block wrapped in the non-fatal
 constant-expression probe, and (b) run-time calls on the same arguments laundered through volatile.
@@ -671,6 +671,28 @@ def build_part(L, part, seed, tier):
         L.table('dc', [(c & M64,) for c in uniq1(cs)])
         for f in ('minutes', 'hours', 'days', 'weeks', 'months', 'years', 'sec32', 'ms32', 't44100', 't48000'):
             L.ob('dur_' + f, 'duration_cast.' + f, 'dc')
+    elif part == 'cal':
+        big = tier == 'thorough'
+        ys = [-32768, -32767, -400, -1, 0, 1, 4, 100, 1900, 1970, 2000, 2023, 2024, 32766, 32767]
+        ms = [0, 1, 2, 3, 4, 6, 9, 11, 12, 13, 14, 15, 16, 100, 128, 254]
+        dd = [0, 1, 2, 27, 28, 29, 30, 31, 32, 33, 100, 128, 254]
+        if not big:
+            ys = [-32768, -32767, -1, 0, 1900, 2000, 2023, 2024, 32767]
+        L.table('cymd', [(y & M64, m, d) for y in ys for m in ms for d in dd])
+        L.table('cmd', [(m, d, w) for m in ms for d in dd for w in (0, 1, 6, 7, 8, 255)])
+        wis = [w | (i << 4) for w in (0, 3, 6, 7, 8, 15) for i in (0, 1, 4, 5, 6, 15)]
+        L.table('cymw', [(y & M64, m, wi) for y in ys[:: (1 if big else 2)] for m in ms[:: (1 if big else 2)] + [12, 13] for wi in wis])
+        L.ob('cal_ymd', 'calendar.year_month_day', 'cymd')
+        L.ob('cal_md', 'calendar.month_day_weekday', 'cmd')
+        L.ob('cal_ymw', 'calendar.year_month_weekday', 'cymw')
+    elif part == 'deg':
+        rows = []
+        for n in range(7):
+            for k in sorted({0, 1, 2, max(n - 1, 0), n, n + 1, n + 2, 2 * n, 2 * n + 1, 1000, 1 << 40, (1 << 63) - 1}):
+                rows.append((n, k))
+        L.table('dg', uniq(rows))
+        for f, nm in (('deg_shift', 'degenerate.shift'), ('deg_counted', 'degenerate.counted'), ('deg_middle', 'degenerate.middle')):
+            L.ob(f, nm, 'dg')
     elif part == 'cont':
         # containers at every fill up to full capacity x key below / at / between / above the elements (complete, both tiers)
         L.table('mk', [(m, k) for m in range(16) for k in range(9)])
